@@ -449,7 +449,10 @@ class Recfile(object):
 
         if self.is_ascii:
             # for ascii, make sure the data are in native format.  This greatly
-            # simplifies the C code
+            # simplifies the C code.  Convert a copy, never the caller's array
+            native_dtype = dataview.dtype.newbyteorder("=")
+            if dataview.dtype != native_dtype:
+                dataview = dataview.astype(native_dtype)
             to_native_inplace(dataview)
 
         self.robj.Write(dataview)
